@@ -19,6 +19,7 @@ package vsix
 import (
 	"archive/zip"
 	"errors"
+	"fmt"
 	"io"
 	"os"
 	"path"
@@ -103,6 +104,9 @@ func verify(f *os.File, opts signers.VerifyOpts) ([]*signers.Signature, error) {
 	}
 	files := make(zipFiles, len(inz.File))
 	for _, f := range inz.File {
+		if files[f.Name] != nil {
+			return nil, fmt.Errorf("duplicate zip member: %s", f.Name)
+		}
 		files[f.Name] = f
 	}
 	// find and parse the signature XML
